@@ -44,6 +44,7 @@ type monitors struct {
 	honest       map[string]bool
 	pulledSeq    map[string][]string // client|key → op ids pulled, in order (from responses actually delivered)
 	pubChecked   map[*call]bool
+	echoed       map[*call]bool
 	entries      map[*call][]*entryExpect
 }
 
@@ -58,7 +59,7 @@ type expectedPub struct {
 
 func newMonitors() *monitors {
 	return &monitors{lastReqCP: map[string]*model.CheckPoint{}, acked: map[string]map[string]uint64{}, pushed: map[string]map[string]string{},
-		pushers: map[string]bool{}, verSeen: map[string]uint64{}, callSnap: map[*call]map[string]bool{}, honest: map[string]bool{}, pulledSeq: map[string][]string{}, pubChecked: map[*call]bool{}, entries: map[*call][]*entryExpect{}}
+		pushers: map[string]bool{}, verSeen: map[string]uint64{}, callSnap: map[*call]map[string]bool{}, honest: map[string]bool{}, pulledSeq: map[string][]string{}, pubChecked: map[*call]bool{}, entries: map[*call][]*entryExpect{}, echoed: map[*call]bool{}}
 }
 
 func (m *monitors) afterSetup(r *run) {
@@ -132,7 +133,8 @@ func (r *run) readStore() (map[string]*dtInfo, []string) {
 
 func (r *run) storeDigest() string {
 	return r.w.store.Dump(dbName, func(coll, field string) bool {
-		return field == "createdAt" || field == "updatedAt" || field == "at"
+		// timestamps; and the serialized document snapshot, whose node list is written in Go map order
+		return field == "createdAt" || field == "updatedAt" || field == "at" || (coll == schema.CollectionNameSnapshot && field == "snapshot")
 	})
 }
 
@@ -202,6 +204,29 @@ func (m *monitors) onResponse(r *run, c *call, res callResult, dropped bool) {
 	for _, p := range resp.PushPullPacks {
 		if p.GetPushPullPackOption().HasErrorBit() {
 			r.probe("error-pack")
+			if len(p.Operations) > 0 && strings.Contains(string(p.Operations[0].Body), "fail to lock") {
+				r.probe("lock-timeout")
+				// somebody else must have been working on the same collection and key
+				shared := false
+				for _, o := range r.w.tr.calls {
+					if o == c || o.startAt > c.endAt && c.endAt != 0 {
+						continue
+					}
+					if oreq, ok := o.req.(*model.PushPullMessage); ok && req != nil && oreq.Collection == req.Collection {
+						for _, q := range oreq.PushPullPacks {
+							if q.Key == p.Key {
+								shared = true
+							}
+						}
+					}
+					if pm, ok := o.req.(*model.PatchMessage); ok && req != nil && pm.Collection == req.Collection && pm.Key == p.Key {
+						shared = true
+					}
+				}
+				if !shared {
+					r.fail("serial", "C12.isolation", "blocked-by-other-key", "%s: the push-pull of %s could not get its lock although no other request touched that key", c.client, p.Key)
+				}
+			}
 			continue
 		}
 		var reqPack *model.PushPullPack
@@ -257,6 +282,7 @@ func (m *monitors) afterEvent(r *run) {
 	}
 	if r.on("wire") {
 		m.checkWire(r, dts)
+		m.checkEcho(r)
 	}
 	if r.on("notify") {
 		m.checkPublishes(r, dts)
